@@ -100,9 +100,13 @@ func udp(sport, dport uint16, data []byte, good bool) []byte {
 	return seg
 }
 
-func dnsQuery() []byte {
+func dnsQuery(k int) []byte {
 	b := []byte{0xab, 0xcd, 0x01, 0x00, 0, 1, 0, 0, 0, 0, 0, 0}
-	b = append(b, 7, 'e', 'x', 'a', 'm', 'p', 'l', 'e', 3, 'c', 'o', 'm', 0)
+	for _, label := range [][]string{{"example", "com"}, {"www", "Example", "ORG"}, {"a", "b"}, {"mail", "example", "com"}}[k%4] {
+		b = append(b, byte(len(label)))
+		b = append(b, label...)
+	}
+	b = append(b, 0)
 	return append(b, 0, 1, 0, 1)
 }
 
@@ -144,7 +148,7 @@ func corpus(c *sim.Ctx, big bool) [][]byte {
 		case 1:
 			b = eth(0x0800, ip4(17, udp(5000, 6000, pl, good), good), c.Draw(2) == 0)
 		case 2:
-			b = eth(0x0800, ip4(17, udp(5353, 53, dnsQuery(), good), true), false)
+			b = eth(0x0800, ip4(17, udp(5353, 53, dnsQuery(c.Draw(4)), good), true), false)
 		case 3:
 			b = eth(0x0800, ip4(1, icmp4(pl), good), false)
 		case 4:
@@ -155,6 +159,30 @@ func corpus(c *sim.Ctx, big bool) [][]byte {
 			b = eth(0x0800, ip4(47, gre(ip4(17, udp(1, 2, pl, good), good)), good), false)
 		case 7:
 			b = eth(0x0806, payload(i, 28), false)
+		}
+		if i > 0 && c.Chance(400) {
+			// a near-duplicate of an earlier input (same conversation, a
+			// retransmission, the answer to a query, a differently spelled name):
+			// what state kept between decodes is most likely to confuse
+			b = append([]byte(nil), out[c.Draw(i)]...)
+			if len(b) > 0 {
+				switch c.Draw(3) {
+				case 0: // ASCII case of one letter
+					var letters []int
+					for k, x := range b {
+						if x|0x20 >= 'a' && x|0x20 <= 'z' {
+							letters = append(letters, k)
+						}
+					}
+					if len(letters) > 0 {
+						b[letters[c.Draw(len(letters))]] ^= 0x20
+					}
+				case 1:
+					b[c.Draw(len(b))]++
+				case 2: // identical bytes in a different buffer
+				}
+			}
+			c.Fault("near_duplicate_input")
 		}
 		switch c.Weighted(5, 2, 2) {
 		case 1:
